@@ -54,6 +54,7 @@ ASSUMPTIONS = [
     "descriptions of the automatic ant_/std_ companions are not judged, only their names and kinds",
     "!for control names are chosen so that none is a prefix of another live control name; ?{x}/?[x] upper/lower forms are not generated",
     "Jinja templating, file inclusion, &name steady references, autoswap/preprocessor/postprocessor/steady-autovalues blocks and block attributes are outside the property's list and not generated",
+    "from_string runs under a 5 s limit on the CPU time of the worker process (ITIMER_VIRTUAL, not wall clock; a normal parse takes ~0.01 s): exceeding it is reported as a hang instead of stalling the shard",
     "equation values are compared with |got-ref| <= 1e-10*|ref| + 1e3*(first-order rounding bound of the reference evaluation); evaluations whose reference is not a finite real or whose bound exceeds 1e-7*max(1,|ref|) are not judged (counted)",
 ]
 
@@ -1619,10 +1620,45 @@ def _check_unsure(case):
     return {"labels": [f"{kind}:accepted_and_correct"], "nontrivial": True}
 
 
+# ---------------------------------------------------------------------------
+# Matchers for known_findings.json (used only while an entry is open)
+# ---------------------------------------------------------------------------
+
+def _models_of(case):
+    return [case["model"]] if "model" in case else []
+
+
+def _has_composite_shift(case):
+    for M in _models_of(case):
+        for e in expand_model(M)["eqs"]:
+            for a in e["dyn"] + (e["steady"] or []):
+                if any(n[0] == "pf" and n[1] == "shift" and n[2][0] not in ("num", "var") for n in ex.walk(a)):
+                    return True
+    return False
+
+
+def _head(message):
+    return message.split("--- source ---")[0]
+
+
+FINDING_MATCHERS = {
+    # shift(a+b,k)*c expanded without parentheses
+    "shift_result_not_parenthesised": lambda sub, case, bucket, message: "equation_value" in bucket and _has_composite_shift(case),
+    # name_?(c){k} / name{-?k}: curly shift left unconverted after !for expansion
+    "curly_shift_after_for_expansion": lambda sub, case, bucket, message: "from_string:raises:IrisPieCritical" in bucket
+    and "Syntax error" in message and re.search(r"\{[\s+\-\d]+\}", _head(message)) is not None,
+    # !if ... !end followed by a sibling !if ... !else ... !end
+    "if_without_else_takes_sibling_else": lambda sub, case, bucket, message: "from_string:raises:IrisPieError" in bucket
+    and "Misplaced preparsing directive" in message,
+    # exponential backtracking of the pseudo-function pattern
+    "pseudofunction_pattern_backtracking": lambda sub, case, bucket, message: bucket.endswith("from_string:hang"),
+}
+
+
 SUBCHECKS = [
-    HypSub("translate", _translate_case, _check_translate, _classify_translate, budget={"quick": 3000, "thorough": 60000}),
-    HypSub("preparser_identity", _identity_case, _check_identity, _classify_identity, budget={"quick": 800, "thorough": 12000}),
-    HypSub("unsure", _unsure_case, _check_unsure, _classify_unsure, budget={"quick": 800, "thorough": 12000}),
+    HypSub("translate", _translate_case, _check_translate, _classify_translate, budget={"quick": 5000, "thorough": 80000}),
+    HypSub("preparser_identity", _identity_case, _check_identity, _classify_identity, budget={"quick": 1000, "thorough": 16000}),
+    HypSub("unsure", _unsure_case, _check_unsure, _classify_unsure, budget={"quick": 1000, "thorough": 16000}),
 ]
 
 
